@@ -41,7 +41,7 @@ Lemma gen_rq_dequeue_body : forall dexp now n q out k r,
   rq_find q k = Some r ->
   deq_visit dexp now n (q, out, false) k =
   match g_rq_dequeue_body (expired dexp r now) (q_pend r) (elapsed r now) (Z.of_nat (length (out ++ [q_pl r]))) n with
-  | ([1], Cont) => (rq_remove q k, out, false)
+  | ([1], Fall) => (rq_remove q k, out, false)
   | ([2; 3; 4], Brk) => (rq_put q k (set_pending r), out ++ [q_pl r], true)
   | ([2; 3; 4], Fall) => (rq_put q k (set_pending r), out ++ [q_pl r], false)
   | _ => (q, out, false)
